@@ -1,5 +1,5 @@
 '''C09 - slicing and squeezing.'''
-from ..rules import dataset
+from ..rules import dataset, patterns
 from ..variants import stats as _v
 
 ID = 'C09'
@@ -31,7 +31,13 @@ def check(ctx):
     ctx.run(dataset.check_ds_pure)
     ctx.run(dataset.check_edge_kind)
     ctx.run(dataset.check_index_kept)
+    ctx.run(patterns.check_patterns, ID)
+
+
+def _variants(program):
+    return _v.variants(program, ID)
 
 
 def variants(program):
-    return _v.variants(program, ID)
+    from ..variants import patterns as _pv
+    return list(_variants(program)) + _pv.variants(program, ID)
